@@ -487,6 +487,10 @@ def decide(prop, tier="quick", seed=0):
         "wall_s": round(wall, 2),
         "violations": len(violations),
     }
+    if rc == 2 or obligations == 0 or discharged == 0:
+        # nothing was decided by this run: do not present it as proof-level evidence
+        ev["level"] = "other"
+        ev["coverage"]["explanation"] = "this run decided nothing (undecided or every obligation failed): " + "; ".join(undecided or ["see violations"])
     os.makedirs(os.path.join(VERIF, "evidence"), exist_ok=True)
     with open(os.path.join(VERIF, "evidence", prop + ".json"), "w") as fo:
         json.dump(ev, fo, indent=1)
